@@ -33,9 +33,11 @@ WriteHeader(m, next, p) ==            \* write_header(): partial byte copy with 
 
 Body0(m, p) ==                        \* isal_deflate_body (level 0)
   IF m.inp = 0 THEN {M(IF Flushing(p) THEN "FLUSH_READ_BUFFER" ELSE "BODY", m.room, 0)}
-  ELSE IF m.room < 2 THEN {m}
-  ELSE Set(m, IF Flushing(p) THEN "FLUSH_READ_BUFFER" ELSE "BODY", Rooms, {0})      \* all input taken
-       \cup Set(m, "BODY", {0, 1}, {1})                                             \* output full first
+  ELSE (IF Flushing(p) THEN {M("FLUSH_READ_BUFFER", m.room, 1)} ELSE {})            \* no more than the look-ahead left: handed to the finish routine untouched,
+       \cup                                                                         \* whatever the room (the body loop is not entered, so the room is not looked at)
+       (IF m.room < 2 THEN {m}
+        ELSE Set(m, IF Flushing(p) THEN "FLUSH_READ_BUFFER" ELSE "BODY", Rooms, {0, 1})  \* input taken (all, or all but the look-ahead)
+             \cup Set(m, "BODY", {0, 1}, {1}))                                      \* output full first
 Finish0(m, p) ==                      \* isal_deflate_finish (level 0): rest of the input + end-of-block symbol
   IF m.room < 2 THEN {m}
   ELSE Set(m, IF p.eos THEN "TRL" ELSE "SYNC_FLUSH", Rooms, {0}) \cup Set(m, "FLUSH_READ_BUFFER", {0, 1}, {m.inp})
